@@ -218,6 +218,13 @@ def streams(rng, tier):
         for c in rng.sample(cand, min(len(cand), 300 if not thorough else 3000)):
             lived.append(dict(c, lived=rng.randrange(1 << 30)))
     out.append(("lived-in", lived))      # the same cases on lived-in operands (values.lived_in)
+    made = []
+    for name, cases in out[:-1]:
+        cand = [c for c in cases if "via" not in c and c.get("op") in ("bin", "un", "cmp", "red", "na")
+                and any(t[0] == "N" for t in (c.get("a") or [])) and any(t[0] != "N" for t in (c.get("a") or []))]
+        for c in rng.sample(cand, min(len(cand), 200 if not thorough else 2000)):
+            made.append(dict(c, origin=rng.choice(["left", "full"])))
+    out.append(("join-made", made))      # the same cases on operands that are columns of a join result (None = padding)
     # ---- per-group aggregates: every None placement x how the rows fall into groups (one group, one row per group,
     # pairs, alternating), through aggregate and through window.  Decided by the oracle alone (the reference is Python's
     # own reduction of each group's None-free values); the grouping itself is C12's.
@@ -590,10 +597,14 @@ def observe(case):
         if op in ("bin", "un"):
             return c05.observe(case)
         c05._LIVED = case.get("lived")
+        c05._ORIGIN = case.get("origin")
         before = V.LIVED_REALISED[0]
+        obefore = c05.ORIGIN_REALISED[0]
         o = {"cmp": _obs_cmp, "red": _obs_red, "na": _obs_na, "grp": _obs_grp}[op](case)
         if c05._LIVED is not None:
             o["lived_ok"] = V.LIVED_REALISED[0] > before
+        if c05._ORIGIN is not None:
+            o["origin_ok"] = c05.ORIGIN_REALISED[0] > obefore
         return o
     except Exception as e:
         return {"broken": f"{type(e).__name__}: {e}"[:200]}
@@ -821,6 +832,8 @@ def nontrivial(case, obs):
 
 
 def describe(case, obs, stream):
+    if "origin" in case:
+        return ["join-made:" + (case["origin"] + " join column" if obs.get("origin_ok") else "fell back to a fresh vector")]
     if "lived" in case:
         return ["lived-in:" + ("history realised" if obs.get("lived_ok") else "fell back to a fresh vector")]
     return _describe(case, obs, stream)
